@@ -303,4 +303,472 @@ Proof.
        [replace (Z.of_N (quitonerror c) =? 1) with true by lia; destruct has_handler; reflexivity|].
   all: replace (Z.of_N (quitonerror c) =? 1) with false by lia. all: reflexivity.
 Qed.
+
+(* ==== read(): one iteration of `while parsing:` against the model's `step` ==== *)
+Hypothesis T_parse_ubx : mem_s "py_io_parse_ubx" translated_io = true.
+Hypothesis T_parse_nmea : mem_s "py_io_parse_nmea" translated_io = true.
+Hypothesis T_parse_rtcm3 : mem_s "py_io_parse_rtcm3" translated_io = true.
+Hypothesis T_do_error : mem_s "py_io_do_error" translated_io = true.
+(* the stream never returns more than it was asked for *)
+Hypothesis rd_le : forall n s, (length (fst (rd n s)) <= n)%nat.
+(* the model's NMEA header test is the generated table *)
+Hypothesis nmea_hdr_table : forall x, nmea_hdr x = existsb (N.eqb x) nmea_hdr2.
+
+Notation step := (@Reader.step S P rd rdl parse nmea_hdr).
+
+Definition W (s : S) (eff : list (string * list gv)) (st : list (string * gv)) : world S :=
+  {| w_stream := s; w_eff := eff; w_store := st |}.
+
+Definition rel_parsed (raw : bytes) (v : gv) (po : option P) : Prop :=
+  match po with
+  | None => v = gnone
+  | Some p => exists proto, v = parsed proto raw /\ parse proto raw = Ok p
+  end.
+
+Definition logname : string := if has_handler then "errorhandler" else "logger.error".
+
+(* ==== read(): the whole call against the model ==== *)
+Hypothesis T_read : mem_s "py_ioread" translated_io = true.
+
+(* what one call of read() does in the model: iterate `step` until something is delivered, the stream ends or an
+   exception leaves; `log`: what was reported to the logger / error handler on the way (newest first) *)
+Inductive rres := RItem (raw : bytes) (po : option P) | REnd | RRaise (e : exn) | RFuel.
+
+Fixpoint read_one (fuel : nat) (s : S) (log : list exn) : rres * S * list exn :=
+  match fuel with
+  | O => (RFuel, s, log)
+  | Datatypes.S f =>
+    match step c s with
+    | (Deliver raw po, s') => (RItem raw po, s', log)
+    | (Skip, s') => read_one f s' log
+    | (Reject e, s') =>
+        if (quitonerror c =? 2)%N then (RRaise e, s', log)
+        else if (quitonerror c =? 1)%N then read_one f s' (e :: log)
+        else read_one f s' log
+    | (Eof, s') => (REnd, s', log)
+    | (Foreign e, s') => (RRaise e, s', log)
+    end
+  end.
+
+Definition effs (log : list exn) : list (string * list gv) := map (fun e => (logname, [Exn e])) log.
+
+Notation py_read := (@py_ioread S rd rdl attr ext).
+
+Definition read_ok (w : world S) (r : result gv * world S) : rres * S * list exn -> Prop := fun m =>
+  match m with
+  | (RItem raw po, s', log) =>
+      exists st' v, r = (Ok (Tup [gbytes raw; v]), W s' (effs log ++ w_eff w)%list st') /\ rel_parsed raw v po
+  | (REnd, s', log) => exists st', r = (Ok (Tup [gnone; gnone]), W s' (effs log ++ w_eff w)%list st')
+  | (RRaise e, s', log) => exists st', r = (Raise e, W s' (effs log ++ w_eff w)%list st')
+  | (RFuel, _, _) => True
+  end.
+
+(* ==== LOOP PROOFS: everything below is about the translated loop of read(); when read() could not be translated the
+   build uses gen/Src_reader_un.v (this file up to here + an empty-premise proof of read_agree) instead ==== *)
+Notation py_body1 := (@py_ioread_body1 S rd rdl attr ext).
+Notation py_test1 := (@py_ioread_test1 S).
+
+Definition Inv (w : world S) : Prop := assoc_s "read.parsing" (w_store w) = Some (gbool true).
+
+Definition iter_ok (w : world S) (r : result ctl * world S) : Prop :=
+  match step c (w_stream w) with
+  | (Deliver raw po, s') =>
+      exists st' v, r = (Ok CNormal, W s' (w_eff w) st') /\
+        assoc_s "read.parsing" st' = Some (gbool false) /\ assoc_s "read.raw_data" st' = Some (gbytes raw) /\
+        assoc_s "read.parsed_data" st' = Some v /\ rel_parsed raw v po
+  | (Skip, s') => exists st', r = (Ok CCont, W s' (w_eff w) st') /\ assoc_s "read.parsing" st' = Some (gbool true)
+  | (Reject e, s') =>
+      if (quitonerror c =? 2)%N then exists st', r = (Raise e, W s' (w_eff w) st')
+      else if (quitonerror c =? 1)%N
+      then exists st', r = (Ok CCont, W s' ((logname, [Exn e]) :: w_eff w) st') /\ assoc_s "read.parsing" st' = Some (gbool true)
+      else exists st', r = (Ok CCont, W s' (w_eff w) st') /\ assoc_s "read.parsing" st' = Some (gbool true)
+  | (Eof, s') => exists st', r = (Ok (CRet (Tup [gnone; gnone])), W s' (w_eff w) st')
+  | (Foreign e, s') => exists st', r = (Raise e, W s' (w_eff w) st')
+  end.
+
+Lemma read_bytes1 s d s' : read_bytes 1 s = (Ok d, s') -> exists x, d = [x].
+Proof.
+  intros H. unfold Reader.read_bytes in H. pose proof (rd_le 1 s) as Hle. destruct (rd 1 s) as [d0 s0]. cbn [fst] in Hle.
+  destruct d0 as [|x [|y d0]]; cbn [length] in *; try lia; [discriminate|].
+  cbn in H. injection H as <- _. now exists x.
+Qed.
+
+Notation frame1 := (@Reader.frame1 S rd rdl nmea_hdr).
+
+(* frame1 with the three frame tails named *)
+Definition frame1' : M framed :=
+  bindM (read_bytes 1) (fun b1 =>
+    match b1 with
+    | [x1] =>
+      if negb (is_preamble x1) then ret Noise else
+      bindM (read_bytes 1) (fun b2 =>
+        match b2 with
+        | [x2] =>
+          if (x1 =? 181)%N && (x2 =? 98)%N then bindM (ubx_rest [x1; x2]) (fun raw => ret (Frame 2 raw))
+          else if (x1 =? 36)%N && nmea_hdr x2 then bindM (nmea_rest [x1; x2]) (fun raw => ret (Frame 1 raw))
+          else if (x1 =? 211)%N && (N.ldiff x2 3 =? 0)%N then bindM (rtcm_rest x1 x2) (fun raw => ret (Frame 4 raw))
+          else raiseM EUBXParse
+        | _ => raiseM EOther
+        end)
+    | _ => ret Noise
+    end).
+
+Lemma frame1_alt s : frame1 s = frame1' s.
+Proof.
+  unfold Reader.frame1, frame1', ubx_rest, nmea_rest, rtcm_rest, bindM, ret.
+  destruct (read_bytes 1 s) as [[b1|e] s1]; [|reflexivity].
+  destruct b1 as [|x1 [|y b1]]; try reflexivity.
+  destruct (negb (is_preamble x1)); [reflexivity|].
+  destruct (read_bytes 1 s1) as [[b2|e] s2]; [|reflexivity].
+  destruct b2 as [|x2 [|y b2]]; try reflexivity.
+  destruct ((x1 =? 181)%N && (x2 =? 98)%N).
+  { destruct (read_bytes 4 s2) as [[h|e] s3]; [|reflexivity].
+    destruct (read_bytes _ s3) as [[bd|e] s4]; reflexivity. }
+  destruct ((x1 =? 36)%N && nmea_hdr x2).
+  { destruct (read_line s2) as [[l|e] s3]; reflexivity. }
+  destruct ((x1 =? 211)%N && (N.ldiff x2 3 =? 0)%N); [|reflexivity].
+  destruct (read_bytes 1 s2) as [[h3|e] s3]; [|reflexivity].
+  destruct (read_bytes _ s3) as [[pl|e] s4]; [|reflexivity].
+  destruct (read_bytes 3 s4) as [[crc|e] s5]; reflexivity.
+Qed.
+
+Lemma g_in_preamble x1 : g_in (V (PBytes [x1])) [V (PBytes [181%N]); V (PBytes [36%N]); V (PBytes [211%N])] = is_preamble x1.
+Proof.
+  unfold is_preamble. cbn [g_in existsb g_eq pv_eq beq].
+  destruct (x1 =? 181)%N, (x1 =? 36)%N, (x1 =? 211)%N; reflexivity.
+Qed.
+
+Lemma hdr_ubx x1 x2 : g_eq (V (PBytes [x1; x2])) (V (PBytes [181%N; 98%N])) = (x1 =? 181)%N && (x2 =? 98)%N.
+Proof. cbn [g_eq pv_eq beq]. now rewrite andb_true_r. Qed.
+
+Lemma hdr_nmea x1 x2 :
+  g_in (V (PBytes [x1; x2])) (map (fun b => V (PBytes [36%N; b])) nmea_hdr2) = (x1 =? 36)%N && nmea_hdr x2.
+Proof.
+  rewrite nmea_hdr_table. unfold g_in. generalize nmea_hdr2 as l. induction l as [|b l IH]; cbn [existsb map].
+  - now rewrite andb_false_r.
+  - rewrite IH. cbn [g_eq pv_eq beq]. rewrite andb_true_r. destruct (x1 =? 36)%N; cbn [andb orb]; reflexivity.
+Qed.
+
+Lemma hdr_rtcm x1 x2 :
+  (if g_eq (V (PBytes [x1])) (V (PBytes [211%N])) then g_eq (V (PInt (Z.land (Z.of_N x2) (-4)))) (V (PInt 0)) else false)
+  = (x1 =? 211)%N && (N.ldiff x2 3 =? 0)%N.
+Proof.
+  cbn [g_eq pv_eq beq]. rewrite andb_true_r. destruct (x1 =? 211)%N; [|reflexivity]. cbn [andb].
+  change (-4) with (Z.lnot (Z.of_N 3)). rewrite N2Z_ldiff. destruct (N.ldiff x2 3 =? 0)%N eqn:E; lia.
+Qed.
+
+Arguments py_io_read_bytes : simpl never.
+Arguments py_io_parse_ubx : simpl never.
+Arguments py_io_parse_nmea : simpl never.
+Arguments py_io_parse_rtcm3 : simpl never.
+Arguments py_io_do_error : simpl never.
+
+Ltac iostep := cbv beta iota zeta delta [seqIO bindIO retIO raiseIO liftR io_set io_get io_eff g_catchIO w_stream w_eff w_store
+                    assoc_s String.eqb Ascii.eqb Bool.eqb fst snd bind g_add gbytes existsb exn_eqb app].
+
+Notation py_do_error_ := (@py_io_do_error S attr).
+
+(* the two handlers of read()'s try statement, as the source has them *)
+Definition H1 : exn -> IO (world S) ctl := fun _ => retIO (CRet (Tup [gnone; gnone])).
+Definition H2 : exn -> IO (world S) ctl := fun e =>
+  doM _ <- io_set "read.err" (Exn e);
+  seqIO (doM c34 <- retIO (g_truth (attr "_quitonerror"));
+         if c34 then (doM t36 <- io_get "read.err"; doM t35 <- py_do_error_ t36; retIO CNormal) else retIO CNormal)
+        (retIO CCont).
+
+Definition protocol_exns : list exn := [EUBXMessage; EUBXType; EUBXParse; EUBXStream; ENmea; ERtcm].
+
+(* what the try statement makes of its body's outcome *)
+Lemma try_ok (m : IO (world S) ctl) w v w1 : m w = (Ok v, w1) ->
+  g_catchIO (g_catchIO m [EEOF] H1) protocol_exns H2 w = (Ok v, w1).
+Proof. intros H. unfold g_catchIO. rewrite H. reflexivity. Qed.
+
+Lemma try_raise (m : IO (world S) ctl) w e w1 : m w = (Raise e, w1) ->
+  g_catchIO (g_catchIO m [EEOF] H1) protocol_exns H2 w =
+  match @classify P e with
+  | Eof => (Ok (CRet (Tup [gnone; gnone])), w1)
+  | Reject _ => H2 e w1
+  | _ => (Raise e, w1)
+  end.
+Proof. intros H. unfold g_catchIO. rewrite H. destruct e; reflexivity. Qed.
+
+Lemma H2_run e (w1 : world S) :
+  H2 e w1 =
+  let w2 := W (w_stream w1) (w_eff w1) (("read.err", Exn e) :: w_store w1) in
+  if (quitonerror c =? 2)%N then (Raise e, w2)
+  else if (quitonerror c =? 1)%N then (Ok CCont, W (w_stream w1) ((logname, [Exn e]) :: w_eff w1) (("read.err", Exn e) :: w_store w1))
+  else (Ok CCont, w2).
+Proof.
+  destruct w1 as [s1 eff1 st1]. unfold H2.
+  cbv beta iota zeta delta [seqIO bindIO retIO io_set io_get w_stream w_eff w_store assoc_s String.eqb Ascii.eqb Bool.eqb].
+  unfold attr at 1. cbn [String.eqb Ascii.eqb Bool.eqb g_truth gint].
+  destruct (Z.of_N (quitonerror c) =? 0) eqn:E0; cbn [negb].
+  - replace (quitonerror c =? 2)%N with false by lia. replace (quitonerror c =? 1)%N with false by lia. reflexivity.
+  - rewrite (do_error_io T_do_error). unfold log_effect, logname, W. cbn [w_stream w_eff w_store].
+    destruct (quitonerror c =? 2)%N; [reflexivity|]. destruct (quitonerror c =? 1)%N; reflexivity.
+Qed.
+
+Lemma parse_ubx_io' hdr (w : world S) : py_parse_ubx (V (PBytes hdr)) w = lift_m (maybe_parse 2) (ubx_rest hdr) w.
+Proof. exact (parse_ubx_io T_parse_ubx hdr w). Qed.
+Lemma parse_nmea_io' hdr (w : world S) : py_parse_nmea (V (PBytes hdr)) w = lift_m (maybe_parse 1) (nmea_rest hdr) w.
+Proof. exact (parse_nmea_io T_parse_nmea hdr w). Qed.
+Lemma parse_rtcm3_io' x1 x2 (w : world S) : py_parse_rtcm3 (V (PBytes [x1; x2])) w = lift_m (maybe_parse 4) (rtcm_rest x1 x2) w.
+Proof. exact (parse_rtcm3_io T_parse_rtcm3 x1 x2 w). Qed.
+
+Lemma pf_band (proto : N) :
+  g_band (attr "_protfilter") (gint (Z.of_N proto)) = Ok (gint (Z.land (Z.of_N (protfilter c)) (Z.of_N proto))).
+Proof. reflexivity. Qed.
+Lemma pf_band1 : g_band (attr "_protfilter") (gint 1) = Ok (gint (Z.land (Z.of_N (protfilter c)) (Z.of_N 1))).
+Proof. reflexivity. Qed.
+Lemma pf_band2 : g_band (attr "_protfilter") (gint 2) = Ok (gint (Z.land (Z.of_N (protfilter c)) (Z.of_N 2))).
+Proof. reflexivity. Qed.
+Lemma pf_band4 : g_band (attr "_protfilter") (gint 4) = Ok (gint (Z.land (Z.of_N (protfilter c)) (Z.of_N 4))).
+Proof. reflexivity. Qed.
+Lemma g_index1 x : g_index (V (PBytes [x])) (gint 0) = Ok (gint (Z.of_N x)).
+Proof. reflexivity. Qed.
+Lemma g_band_int a b : g_band (gint a) (gint b) = Ok (gint (Z.land a b)).
+Proof. reflexivity. Qed.
+Lemma mask_eq x2 : g_eq (gint (Z.land (Z.of_N x2) (-4))) (gint 0) = (N.ldiff x2 3 =? 0)%N.
+Proof.
+  cbn [g_eq pv_eq gint]. change (-4) with (Z.lnot (Z.of_N 3)). rewrite N2Z_ldiff. destruct (N.ldiff x2 3 =? 0)%N eqn:E; lia.
+Qed.
+Lemma beq1 x y : g_eq (V (PBytes [x])) (V (PBytes [y])) = (x =? y)%N.
+Proof. cbn [g_eq pv_eq beq]. now rewrite andb_true_r. Qed.
+
+Lemma classify_inv (e : exn) (o : @outcome P) : classify e = o ->
+  (e = EEOF /\ o = Eof) \/ (is_protocol_exn e = true /\ o = Reject e) \/ (e <> EEOF /\ is_protocol_exn e = false /\ o = Foreign e).
+Proof. intros <-. destruct e; cbn; auto; right; right; repeat split; discriminate. Qed.
+
+(* symbolic execution of the translated loop body, using the facts in the context about the model's reads and tests *)
+(* ---- stepping through a translated block one statement at a time: only the statement at the head is evaluated,
+        what follows stays folded ---- *)
+Lemma seqIO_eq (a b : IO (world S) ctl) w r : a w = r ->
+  seqIO a b w = match r with
+                | (Ok CNormal, w') => b w'
+                | (Ok x, w') => (Ok x, w')
+                | (Raise e, w') => (Raise e, w')
+                end.
+Proof. intros <-. unfold seqIO, bindIO, retIO. destruct (a w) as [[[]|e] w']; reflexivity. Qed.
+
+Lemma bindIO_eq {A B} (m : IO (world S) A) (k : A -> IO (world S) B) w r : m w = r ->
+  bindIO m k w = match r with (Ok v, w') => k v w' | (Raise e, w') => (Raise e, w') end.
+Proof. intros <-. reflexivity. Qed.
+
+(* evaluate a small computation (one statement, one condition): the goal is `t w = ?r` *)
+Ltac ev1 :=
+  first
+    [ progress iostep
+    | rewrite read_bytes_ioZ by lia; natlit
+    | rewrite parse_ubx_io'
+    | rewrite parse_nmea_io'
+    | rewrite parse_rtcm3_io'
+    | progress unfold lift_m, wset, maybe_parse, g_unpack2, passes
+    | rewrite pf_band1 | rewrite pf_band2 | rewrite pf_band4
+    | rewrite truthy_land | rewrite truth_gbool | rewrite attr_parsing
+    | rewrite g_in_preamble | rewrite hdr_ubx | rewrite g_index1 | rewrite g_band_int | rewrite mask_eq | rewrite beq1
+    | match goal with |- context [g_in (V (PBytes [?a; ?b])) ?l] =>
+        change (g_in (V (PBytes [a; b])) l) with (g_in (V (PBytes [a; b])) (map (fun z => V (PBytes [36%N; z])) nmea_hdr2));
+        rewrite hdr_nmea end
+    | match goal with H : read_bytes ?n ?s = _ |- context [read_bytes ?n ?s] => rewrite H end
+    | match goal with H : ubx_rest ?h ?s = _ |- context [ubx_rest ?h ?s] => rewrite H end
+    | match goal with H : nmea_rest ?h ?s = _ |- context [nmea_rest ?h ?s] => rewrite H end
+    | match goal with H : rtcm_rest ?a ?b ?s = _ |- context [rtcm_rest ?a ?b ?s] => rewrite H end
+    | match goal with H : parse ?p ?r = _ |- context [parse ?p ?r] => rewrite H end
+    | match goal with H : parsing c = _ |- context [parsing c] => rewrite H end
+    | match goal with H : negb ?b = _ |- context [negb ?b] => rewrite H end
+    | match goal with H : N.eqb ?a ?b = _ |- context [N.eqb ?a ?b] => rewrite H end
+    | match goal with H : nmea_hdr ?x = _ |- context [nmea_hdr ?x] => rewrite H end
+    | progress cbn [andb orb negb N.eqb Pos.eqb] ].
+Ltac ev := repeat ev1; reflexivity.
+
+(* one step of the block at the head of the goal `prog w = _` *)
+Ltac run1 :=
+  lazymatch goal with
+  | |- seqIO ?a ?b ?w = _ =>
+      let r := fresh "r" in let H := fresh "H" in
+      evar (r : (result ctl * world S)%type); assert (H : a w = r) by (subst r; ev);
+      rewrite (seqIO_eq a b w r H); subst r; clear H; cbv beta iota
+  | |- @bindIO _ ?A _ ?m ?k ?w = _ =>
+      let r := fresh "r" in let H := fresh "H" in
+      evar (r : (result A * world S)%type); assert (H : m w = r) by (subst r; ev);
+      rewrite (bindIO_eq m k w r H); subst r; clear H; cbv beta iota
+  end.
+Ltac run := repeat run1; ev.
+
+(* expose the try statement of the loop body *)
+Ltac open_try :=
+  unfold py_ioread_body1;
+  match goal with
+  | |- context [g_catchIO (g_catchIO ?m ?l1 ?h1) ?l2 ?h2 ?w] =>
+      change (g_catchIO (g_catchIO m l1 h1) l2 h2 w) with (g_catchIO (g_catchIO m [EEOF] H1) protocol_exns H2 w)
+  end.
+
+(* the loop body ends normally / with `continue` / with `return`: run it *)
+Ltac leaf_ok := open_try; erewrite try_ok; [reflexivity | run].
+(* the try body raises e: run it up to there, then the handlers *)
+Ltac leaf_raise := open_try; erewrite try_raise; [ | run].
+
+(* the body's try block raised e: what the iteration yields, for each class of e *)
+Ltac leaf_classify e :=
+  let Ec := fresh "Ec" in
+  destruct (classify e) as [? ?| |?| |?] eqn:Ec;
+  destruct (classify_inv _ _ Ec) as [[-> Ho]|[[Hp Ho]|[Hn [Hp Ho]]]]; try discriminate Ho;
+  [ (* Reject *)
+    injection Ho as <-;
+    destruct (quitonerror c =? 2)%N eqn:Eq2;
+    [ eexists; leaf_raise; rewrite Ec, H2_run; cbn zeta; rewrite Eq2; reflexivity
+    | destruct (quitonerror c =? 1)%N eqn:Eq1;
+      (eexists; split; [leaf_raise; rewrite Ec, H2_run; cbn zeta; rewrite Eq2, Eq1; reflexivity
+                       | cbn [assoc_s String.eqb Ascii.eqb Bool.eqb]; assumption]) ]
+  | (* Eof *) eexists; leaf_raise; rewrite Ec; reflexivity
+  | (* Foreign *) injection Ho as <-; eexists; leaf_raise; rewrite Ec; reflexivity ].
+
+Ltac store_side := cbn [assoc_s String.eqb Ascii.eqb Bool.eqb]; first [assumption | reflexivity].
+
+(* a frame of protocol `proto` was framed (Efr: what the model read): the decision the model's step makes next *)
+Ltac frame_leaves proto Efr :=
+  let pm := fresh "pm" in let ep := fresh "ep" in let Eparse := fresh "Eparse" in
+  unfold ret;
+  destruct (negb (N.land (protfilter c) proto =? 0)%N) eqn:Epass;
+  [ destruct (parsing c) eqn:Epars;
+    [ match goal with |- context [parse proto ?raw] => destruct (parse proto raw) as [pm|ep] eqn:Eparse end;
+      [ (* delivered, parsed *)
+        do 2 eexists; split; [leaf_ok|]; repeat split; try store_side; eexists; split; [reflexivity|eassumption]
+      | (* the protocol parser raised *)
+        leaf_classify ep ]
+    | (* delivered raw *)
+      do 2 eexists; split; [leaf_ok|]; repeat split; try store_side; reflexivity ]
+  | (* filtered out *)
+    eexists; split; [leaf_ok|store_side] ].
+
+(* the header is none of the three protocols: UBXParseError, reported as any other rejection *)
+Ltac unknown_hdr :=
+  cbn [classify is_protocol_exn];
+  destruct (quitonerror c =? 2)%N eqn:Eq2;
+  [ eexists; leaf_raise; cbn [classify is_protocol_exn]; rewrite H2_run; cbn zeta; rewrite Eq2; reflexivity
+  | destruct (quitonerror c =? 1)%N eqn:Eq1;
+    (eexists; split; [leaf_raise; cbn [classify is_protocol_exn]; rewrite H2_run; cbn zeta; rewrite Eq2, Eq1; reflexivity
+                     | store_side]) ].
+
+Lemma body1_step (w : world S) : Inv w -> iter_ok w (py_body1 w).
+Proof.
+  intros HI. destruct w as [s0 eff st]. unfold Inv in HI. cbn [w_store] in HI.
+  unfold iter_ok, Reader.step, passes. cbn [w_stream w_eff]. rewrite frame1_alt. unfold frame1', bindM.
+  destruct (read_bytes 1 s0) as [[b1|e1] s1] eqn:E1.
+  - destruct (read_bytes1 _ _ _ E1) as [x1 ->].
+    destruct (negb (is_preamble x1)) eqn:Ep.
+    + (* not a preamble byte: skipped *)
+      unfold ret. eexists. split; [leaf_ok|store_side].
+    + destruct (read_bytes 1 s1) as [[b2|e2] s2] eqn:E2.
+      * destruct (read_bytes1 _ _ _ E2) as [x2 ->].
+        (* which preamble *)
+        assert (Hx : x1 = 181%N \/ x1 = 36%N \/ x1 = 211%N).
+        { unfold is_preamble in Ep. destruct (x1 =? 181)%N eqn:A; [left; lia|]. destruct (x1 =? 36)%N eqn:B; [right; left; lia|].
+          destruct (x1 =? 211)%N eqn:C; [right; right; lia|]. discriminate Ep. }
+        destruct Hx as [->|[->| ->]]; cbn [N.eqb Pos.eqb andb].
+        -- (* b5 *)
+           destruct (x2 =? 98)%N eqn:E98.
+           ++ destruct (ubx_rest [181%N; x2] s2) as [[raw|er] s3] eqn:Efr.
+              ** frame_leaves 2%N Efr.
+              ** leaf_classify er.
+           ++ (* unknown header *) unfold raiseM. unknown_hdr.
+        -- (* $ *)
+           destruct (nmea_hdr x2) eqn:Enm.
+           ++ destruct (nmea_rest [36%N; x2] s2) as [[raw|er] s3] eqn:Efr.
+              ** frame_leaves 1%N Efr.
+              ** leaf_classify er.
+           ++ unfold raiseM. unknown_hdr.
+        -- (* d3 *)
+           destruct (N.ldiff x2 3 =? 0)%N eqn:Emask.
+           ++ destruct (rtcm_rest 211%N x2 s2) as [[raw|er] s3] eqn:Efr.
+              ** frame_leaves 4%N Efr.
+              ** leaf_classify er.
+           ++ unfold raiseM. unknown_hdr.
+      * (* the second header byte cannot be read *)
+        leaf_classify e2.
+  - (* the first byte cannot be read *)
+    leaf_classify e1.
+Qed.
+
+Lemma read_one_log fuel : forall s l,
+  read_one fuel s l = let '(r, s', log) := read_one fuel s [] in (r, s', (log ++ l)%list).
+Proof.
+  induction fuel as [|f IH]; intros s l; cbn [read_one]; [reflexivity|].
+  destruct (step c s) as [[raw po| |e| |e] s']; try reflexivity.
+  - apply IH.
+  - destruct (quitonerror c =? 2)%N; [reflexivity|]. destruct (quitonerror c =? 1)%N; [|apply IH].
+    rewrite (IH s' (e :: l)), (IH s' [e]). destruct (read_one f s' []) as [[r s''] log]. now rewrite <- app_assoc.
+Qed.
+
+Notation py_loop fuel := (g_while fuel py_test1 py_body1).
+
+Lemma test1_run (w : world S) v : assoc_s "read.parsing" (w_store w) = Some v -> py_test1 w = (Ok (g_truth v), w).
+Proof. intros H. unfold py_ioread_test1. cbv beta iota zeta delta [bindIO retIO io_get]. rewrite H. reflexivity. Qed.
+
+Definition loop_ok (w : world S) (r : result ctl * world S) : rres * S * list exn -> Prop := fun m =>
+  match m with
+  | (RItem raw po, s', log) =>
+      exists st' v, r = (Ok CNormal, W s' (effs log ++ w_eff w)%list st') /\
+        assoc_s "read.raw_data" st' = Some (gbytes raw) /\ assoc_s "read.parsed_data" st' = Some v /\ rel_parsed raw v po
+  | (REnd, s', log) => exists st', r = (Ok (CRet (Tup [gnone; gnone])), W s' (effs log ++ w_eff w)%list st')
+  | (RRaise e, s', log) => exists st', r = (Raise e, W s' (effs log ++ w_eff w)%list st')
+  | (RFuel, _, _) => True
+  end.
+
+Lemma loop_run fuel : forall w : world S, Inv w -> loop_ok w (py_loop (Datatypes.S fuel) w) (read_one fuel (w_stream w) []).
+Proof.
+  induction fuel as [|f IH]; intros w HI; [exact I|].
+  cbn [read_one]. pose proof (body1_step w HI) as Hb. unfold iter_ok in Hb.
+  change (py_loop (Datatypes.S (Datatypes.S f)) w) with
+    (bindIO py_test1 (fun t => if t then bindIO py_body1 (fun r => match r with
+        | CNormal | CCont => py_loop (Datatypes.S f) | CBreak => retIO CNormal | CRet v => retIO (CRet v) end) else retIO CNormal) w).
+  unfold bindIO at 1. rewrite (test1_run w _ HI). cbn [g_truth gbool Z.eqb negb]. unfold bindIO at 1.
+  destruct (step c (w_stream w)) as [[raw po| |e| |e] s'].
+  - (* delivered: the loop test fails on the next round *)
+    destruct Hb as (st' & v & -> & Hp & Hr & Hv & Hrel). unfold loop_ok, effs. cbn [map app].
+    change (py_loop (Datatypes.S f) (W s' (w_eff w) st')) with
+      (bindIO py_test1 (fun t => if t then bindIO py_body1 (fun r => match r with
+          | CNormal | CCont => py_loop f | CBreak => retIO CNormal | CRet v => retIO (CRet v) end) else retIO CNormal) (W s' (w_eff w) st')).
+    unfold bindIO at 1. rewrite (test1_run (W s' (w_eff w) st') _ Hp). cbn [g_truth gbool Z.eqb negb retIO].
+    exists st', v. repeat split; assumption.
+  - (* skipped *)
+    destruct Hb as (st' & -> & Hp). specialize (IH (W s' (w_eff w) st') Hp). unfold W in IH at 1 2. cbn [w_stream w_eff] in IH. exact IH.
+  - (* rejected *)
+    destruct (quitonerror c =? 2)%N.
+    + destruct Hb as (st' & ->). exists st'. reflexivity.
+    + destruct (quitonerror c =? 1)%N.
+      * destruct Hb as (st' & -> & Hp). specialize (IH (W s' ((logname, [Exn e]) :: w_eff w) st') Hp).
+        unfold loop_ok in *. unfold W in IH at 1 2 3 4. cbn [w_stream w_eff] in IH. rewrite (read_one_log f s' [e]).
+        destruct (read_one f s' []) as [[r s''] log]. fold (W s' ((logname, [Exn e]) :: w_eff w) st') in IH.
+        assert (Hl : (effs (log ++ [e]) ++ w_eff w = effs log ++ (logname, [Exn e]) :: w_eff w)%list).
+        { unfold effs. rewrite map_app, <- app_assoc. reflexivity. }
+        destruct r; rewrite ?Hl; exact IH.
+      * destruct Hb as (st' & -> & Hp). specialize (IH (W s' (w_eff w) st') Hp). unfold W in IH at 1 2. cbn [w_stream w_eff] in IH. exact IH.
+  - (* end of stream *)
+    destruct Hb as (st' & ->). exists st'. reflexivity.
+  - destruct Hb as (st' & ->). exists st'. reflexivity.
+Qed.
+
+(* read() as the source has it now, for every stream, configuration and starting state: what it returns, where it
+   leaves the stream and what it reports are what the model's iteration of `step` gives *)
+Theorem read_agree : forall fuel (w : world S),
+  read_ok w (py_read (Datatypes.S fuel) w) (read_one fuel (w_stream w) []).
+Proof.
+  intros fuel w. destruct w as [s0 eff st].
+  pose proof (loop_run fuel {| w_stream := s0; w_eff := eff; w_store := ("read.parsing", gbool true) :: st |} eq_refl) as HL.
+  unfold loop_ok in HL. cbn [w_stream w_eff] in HL.
+  assert (Hpy : py_read (Datatypes.S fuel) {| w_stream := s0; w_eff := eff; w_store := st |} =
+                fn_result (seqIO (py_loop (Datatypes.S fuel))
+                                 (doM t37 <- io_get "read.raw_data"; doM t38 <- io_get "read.parsed_data";
+                                  retIO (CRet (Tup [t37; t38]))))
+                          {| w_stream := s0; w_eff := eff; w_store := ("read.parsing", gbool true) :: st |}) by reflexivity.
+  rewrite Hpy. clear Hpy. unfold read_ok. cbn [w_stream w_eff].
+  destruct (read_one fuel s0 []) as [[[raw po| |e|] s'] log].
+  - destruct HL as (st' & v & HL & Hr & Hv & Hrel). exists st', v. split; [|exact Hrel].
+    unfold fn_result, seqIO. unfold bindIO at 1 2. rewrite HL.
+    cbv beta iota zeta delta [bindIO retIO io_get W w_store w_stream w_eff]. rewrite Hr, Hv. reflexivity.
+  - destruct HL as (st' & HL). exists st'. unfold fn_result, seqIO. unfold bindIO at 1 2. rewrite HL. reflexivity.
+  - destruct HL as (st' & HL). exists st'. unfold fn_result, seqIO. unfold bindIO at 1 2. rewrite HL. reflexivity.
+  - exact I.
+Qed.
 End R.
